@@ -43,6 +43,10 @@ func content(p string, goMod string) string {
 	if p == "go.mod" {
 		return goMod
 	}
+	if p == "b" || p == "sub/x.go" {
+		// one large file (several deflate windows / copy buffers)
+		return strings.Repeat("content of "+p+" 0123456789abcdef\n", 2500)
+	}
 	return "content of " + p + "\n"
 }
 
